@@ -28,6 +28,9 @@ type Case struct {
 	BigQuery int `json:"big_query,omitempty"`
 	// IdleAt (client "ssl-idle"): a long time passes before message i (-1 = before the start-up packet)
 	IdleAt []int `json:"idle_at,omitempty"`
+	// BadPass (with Auth): the client sends a wrong password; the rejection (what is reported, that the
+	// connection ends, that nothing of the session is served) looks the same inside TLS as in plaintext
+	BadPass bool `json:"bad_pass,omitempty"`
 }
 
 const marker = "MARKER"
@@ -56,7 +59,9 @@ func (c Case) config() script.Config {
 
 func (c Case) startup() []byte {
 	b := pgwire.Startup([][2]string{{"user", "tls-user"}, {"database", "db"}})
-	if c.Auth {
+	if c.Auth && c.BadPass {
+		b = append(b, pgwire.Password(marker+"-NOT-THE-PASSWORD")...)
+	} else if c.Auth {
 		b = append(b, pgwire.Password(marker+"-PASSWORD")...)
 	}
 	return b
@@ -231,6 +236,9 @@ func protoReply(b []byte) bool {
 func Run(c Case) core.Result {
 	res := core.Result{}
 	res.Labels = append(res.Labels, "tls="+c.TLS, "client="+c.Client)
+	if c.Auth && c.BadPass {
+		res.Labels = append(res.Labels, "wrong-password")
+	}
 	certs := c.TLS == "cert" || c.TLS == "cert13"
 	stuffed := append(pgwire.Startup([][2]string{{"user", "stuffed-user"}, {"database", "db"}}), pgwire.Query(marker+"-STUFFED-QUERY")...)
 	noCallback := func(tr []string, what string) string {
